@@ -145,11 +145,13 @@ fn exprify(p: &mut Prng, m: &mut ModSpec) {
 struct Case {
     arch: Arch,
     m: ModSpec,
+    /// (remember_state nesting, extra register rules, expression stack padding)
+    stress: (u8, u16, u8),
     probes: Vec<(u64, bool, RegsAny, MemDesc, bool)>,
 }
 
 fn describe(c: &Case, upto: usize) -> String {
-    let mut s = format!("arch={} mod {}\n", c.arch.name(), c.m.line_fields());
+    let mut s = format!("arch={} cfi-padding(remember_state,extra-registers,expression-stack)={:?} mod {}\n", c.arch.name(), c.stress, c.m.line_fields());
     for (addr, is_ra, regs, mem, iter) in c.probes.iter().take(upto + 1) {
         s.push_str(&format!(
             "{} kind={} addr={} {} mem={}\n",
@@ -161,7 +163,10 @@ fn describe(c: &Case, upto: usize) -> String {
 
 fn run_case<HA: ArchH, HN: ArchH>(rep: &mut Report, c: &Case) {
     let format = format_of(&c.m);
-    let module = match catch(|| build_module(c.arch, "m", &c.m)) {
+    crate::cfi::set_stress(c.stress.0, c.stress.1, c.stress.2);
+    let module = catch(|| build_module(c.arch, "m", &c.m));
+    crate::cfi::set_stress(0, 0, 0);
+    let module = match module {
         Ok(m) => m,
         Err(_) => return,
     };
@@ -253,7 +258,16 @@ fn judge(rep: &mut Report, c: &Case, i: usize, format: &str, events: u64, sa: &s
     } else {
         rep.count(&format!("{} {format} {what}: no heap events", c.arch.name()));
     }
-    if sa != sn {
+    // gimli's unwind context has the same capacities under both storages (4 rows, 192 rules);
+    // only the expression evaluator's stack (64 values vs a Vec) can make the policies differ
+    let within = c.stress.2 <= 60;
+    if c.stress != (0, 0, 0) {
+        rep.count(&format!("cfi padding: remember_state {} / extra registers {} / expression stack {}", if c.stress.0 > 3 { "beyond" } else if c.stress.0 > 0 { "within" } else { "-" }, if c.stress.1 > 0 { "within" } else { "-" }, if c.stress.2 > 60 { "beyond" } else if c.stress.2 > 0 { "within" } else { "-" }));
+    }
+    if sa != sn && !within {
+        rep.count("beyond StoreOnStack capacity: policies differ (permitted)");
+    }
+    if sa != sn && within {
         rep.add_finding(Finding {
             props: vec!["C15".into()],
             kind: "oracle".into(),
@@ -338,7 +352,23 @@ fn gen_case(p: &mut Prng, arch: Arch, kind: u64) -> Case {
             probes.push((addr, is_ra, regs, mem, iter));
         }
     }
-    Case { arch, m, probes }
+    // both sides of the capacities of gimli's storages (4 rows, 192 rules - the same for both
+    // policies - and 64 expression stack values for `StoreOnStack` only)
+    let stress = if matches!(m.data, DataSpec::Dwarf(..)) && kind == 1 {
+        match p.below(7) {
+            0 => (p.below(4) as u8, 0, 0),
+            1 => (0, p.below(150) as u16, 0),
+            2 => (0, 0, p.below(60) as u8),
+            3 => (p.below(4) as u8, p.below(100) as u16, p.below(40) as u8),
+            4 => (4 + p.below(3) as u8, 0, 0),   // beyond the row stack: both policies give up alike
+            5 => (0, 150 + p.below(100) as u16, 0), // beyond the rule table: alike
+            6 if p.chance(1, 3) => (0, 0, 64 + p.below(20) as u8), // beyond StoreOnStack's value stack: may differ
+            _ => (0, 0, 0),
+        }
+    } else {
+        (0, 0, 0)
+    };
+    Case { arch, m, probes, stress }
 }
 
 pub fn run(tier: &str, seed: u64) -> Report {
@@ -380,3 +410,4 @@ pub fn run(tier: &str, seed: u64) -> Report {
     }
     rep
 }
+
